@@ -3,6 +3,7 @@ package sym
 import (
 	"fmt"
 	"os"
+	"time"
 	"go/types"
 	"sort"
 	"strings"
@@ -244,7 +245,17 @@ func (e *Exec) feasible(st *State, c *Term) (bool, Result) {
 	if r, ok := e.feasCache[key]; ok {
 		return r != Unsat, r
 	}
+	tRel := time.Now()
 	asserts := e.relevant(append(append([]*Term{}, st.PC...), c))
+	if d := time.Since(tRel).Seconds(); d > 0.3 && os.Getenv("GOSYM_PROF") != "" {
+		fmt.Fprintf(os.Stderr, "%s slow relevant() %.1fs defs=%d\n", time.Now().Format("15:04:05.000"), d, len(e.Defs))
+	}
+	tEval := time.Now()
+	defer func() {
+		if d := time.Since(tEval).Seconds(); d > 3 && os.Getenv("GOSYM_PROF") != "" {
+			fmt.Fprintf(os.Stderr, "%s slow feasible() total %.1fs\n", time.Now().Format("15:04:05.000"), d)
+		}
+	}()
 	// cached concrete models: a model satisfying PC, definitions and c proves feasibility without a solver call
 	for i := len(e.models) - 1; i >= 0 && i >= len(e.models)-24; i-- {
 		m := e.models[i]
@@ -261,14 +272,21 @@ func (e *Exec) feasible(st *State, c *Term) (bool, Result) {
 			return true, Sat
 		}
 	}
+	if d := time.Since(tEval).Seconds(); d > 0.3 && os.Getenv("GOSYM_PROF") != "" {
+		fmt.Fprintf(os.Stderr, "%s slow model-cache eval %.1fs models=%d asserts=%d\n", time.Now().Format("15:04:05.000"), d, len(e.models), len(asserts))
+	}
 	e.BranchQueries++
+	if d := os.Getenv("GOSYM_DUMPBRANCH"); d != "" {
+		os.MkdirAll(d, 0o755)
+		os.WriteFile(fmt.Sprintf("%s/%s_%04d.smt2", d, e.CurHarness, e.BranchQueries), []byte(Script(asserts)+"(check-sat)\n"), 0o644)
+	}
 	r, model, _, secs := e.Solver.Check(asserts, e.BranchTimeoutMs, true, e.branchSolver())
 	if r == Sat && model != nil {
 		e.models = append(e.models, model)
 	}
 	e.BranchSecs += secs
-	if secs > 1.0 && os.Getenv("GOSYM_PROF") != "" {
-		fmt.Fprintf(os.Stderr, "slow branch query %.1fs -> %s (pc=%d conjuncts, cond=%s)\n", secs, r, len(st.PC), truncate(c.String(), 200))
+	if (secs > 1.0 || os.Getenv("GOSYM_PROF") == "all") && os.Getenv("GOSYM_PROF") != "" {
+		fmt.Fprintf(os.Stderr, "%s slow branch query %.1fs -> %s (pc=%d conjuncts, cond=%s)\n", time.Now().Format("15:04:05.000"), secs, r, len(st.PC), truncate(c.String(), 60))
 	}
 	e.feasCache[key] = r
 	return r != Unsat, r
@@ -281,6 +299,11 @@ func (e *Exec) branchSolver() string {
 func (e *Exec) feasibleBoth(st *State, c *Term) (bool, bool) {
 	if e.inInit {
 		unsupported("symbolic branch during package init")
+	}
+	if e.Lazy {
+		// lazy mode: explore both sides without asking the solver; infeasible paths only add
+		// ite branches under unsatisfiable guards (sound), bounded by the unwinding limit.
+		return true, true
 	}
 	t, rt := e.feasible(st, c)
 	if !t {
